@@ -596,7 +596,14 @@ func (d *driver) runMultiproof(w emitter, pid int, pr *proofProg) {
 							}
 						}
 					}
-				case "drop0", "droplast", "dropz": // lie about one opening and leave it (all openings at its index) out of g, h and E
+				case "idlie": // lie about the value of an opening whose commitment is the identity (the zero polynomial), prove it as the zero polynomial
+				for a := 0; a < n; a++ {
+					if cs[a].Equal(&banderwagon.Identity) {
+						lie = a
+						break
+					}
+				}
+			case "drop0", "droplast", "dropz": // lie about one opening and leave it (all openings at its index) out of g, h and E
 					lie = 0
 					if pt.To == "droplast" {
 						lie = n - 1
